@@ -7,7 +7,11 @@ import random
 from .. import core, gen, genhist, pymach as pm, sx
 
 THEOREMS = ['C14.serializer_bytes_tied', 'C14.deserializer_text_is_the_model', 'C14.deserializer_text_is_the_model_gamma_claim', 'C14.deserializer_text_undecodable', 'C14.deserializer_duplicate_keys_outside_model', 'C14.decode_encode', 'C14.decode_unique', 'C14.truncated_is_error', 'C14.unknown_is_error',
-            'C14.deserialize_replays_call', 'C14.deserialize_replays_history', 'C14.opcodes_tied']
+            'C14.deserialize_replays_call', 'C14.deserialize_replays_history', 'C14.opcodes_tied',
+            # the round trip on the TEXTS (Props/C14b.lean, EndToEnd2.lean): bytes of the translated serializer methods fed to the translated
+            # deserializer running on the tracker and on the translated StatefulInterpreter end in the history's state; errors at text level
+            'C14.roundtrip_text_phase', 'C14.roundtrip_text', 'C14.deserMod_is_deserialize', 'C14.undecodable_text', 'C14.truncated_is_error_text',
+            'C14.unknown_is_error_text', 'C14.unknown_head_raises_text', 'C14.keys_excluded_point', 'C14.RoundTripExample.mod_roundtrip']
 
 
 def dup_keys(bs):
@@ -55,7 +59,7 @@ def decimal_names(rng, cl, calls):
 
 def run(rep):
     rng = random.Random(rep.seed * 1000003 + 14)
-    ok, detail = core.proof_gate(rep, 'Pi2.Props.C14', THEOREMS)
+    ok, detail = core.proof_gate(rep, 'Pi2.Props.C14b', THEOREMS)
     quick = rep.tier == 'quick'
     N = 300 if quick else 5000
     hs = [decimal_names(rng, *genhist.gen_history(rng, rng.choice((8, 15, 30, 50)))) for _ in range(N)]
